@@ -113,53 +113,68 @@ mutual
 /-- `expr`: `ret = and_expr(s); while s.accept(OR): ret = BoolOp(Or, [ret, and_expr(s)])`. -/
 def pExpr (bad : Bool) : Nat → List Tok → PRes
   | 0, _ => .error .fuel
-  | f + 1, ts => do
-    let (ret, r) ← pAnd bad f ts
-    pExprLoop bad f ret r
+  | f + 1, ts =>
+    match pAnd bad f ts with
+    | .error e => .error e
+    | .ok (ret, r) => pExprLoop bad f ret r
 def pExprLoop (bad : Bool) : Nat → Ast → List Tok → PRes
   | 0, _, _ => .error .fuel
   | f + 1, ret, ts =>
     match ts with
-    | .or :: rest => do
-      let r ← advance bad rest
-      let (rhs, r') ← pAnd bad f r
-      pExprLoop bad f (.or ret rhs) r'
+    | .or :: rest =>
+      match advance bad rest with
+      | .error e => .error e
+      | .ok r =>
+        match pAnd bad f r with
+        | .error e => .error e
+        | .ok (rhs, r') => pExprLoop bad f (.or ret rhs) r'
     | _ => .ok (ret, ts)
 /-- `and_expr`: `ret = not_expr(s); while s.accept(AND): ret = BoolOp(And, [ret, not_expr(s)])`. -/
 def pAnd (bad : Bool) : Nat → List Tok → PRes
   | 0, _ => .error .fuel
-  | f + 1, ts => do
-    let (ret, r) ← pNot bad f ts
-    pAndLoop bad f ret r
+  | f + 1, ts =>
+    match pNot bad f ts with
+    | .error e => .error e
+    | .ok (ret, r) => pAndLoop bad f ret r
 def pAndLoop (bad : Bool) : Nat → Ast → List Tok → PRes
   | 0, _, _ => .error .fuel
   | f + 1, ret, ts =>
     match ts with
-    | .and :: rest => do
-      let r ← advance bad rest
-      let (rhs, r') ← pNot bad f r
-      pAndLoop bad f (.and ret rhs) r'
+    | .and :: rest =>
+      match advance bad rest with
+      | .error e => .error e
+      | .ok r =>
+        match pNot bad f r with
+        | .error e => .error e
+        | .ok (rhs, r') => pAndLoop bad f (.and ret rhs) r'
     | _ => .ok (ret, ts)
 /-- `not_expr`: `'not' not_expr | '(' expr ')' | ident`, otherwise `s.reject(…)` at the current token. -/
 def pNot (bad : Bool) : Nat → List Tok → PRes
   | 0, _ => .error .fuel
   | f + 1, ts =>
     match ts with
-    | .not :: rest => do
-      let r ← advance bad rest
-      let (e, r') ← pNot bad f r
-      .ok (.not e, r')
-    | .lparen :: rest => do
-      let r ← advance bad rest
-      let (e, r') ← pExpr bad f r
-      match r' with
-      | .rparen :: rest' => do
-        let r'' ← advance bad rest'
-        .ok (e, r'')
-      | _ => .error (.at r'.length)
-    | .ident s :: rest => do
-      let r ← advance bad rest
-      .ok (.ident s, r)
+    | .not :: rest =>
+      match advance bad rest with
+      | .error e => .error e
+      | .ok r =>
+        match pNot bad f r with
+        | .error e => .error e
+        | .ok (e, r') => .ok (.not e, r')
+    | .lparen :: rest =>
+      match advance bad rest with
+      | .error e => .error e
+      | .ok r =>
+        match pExpr bad f r with
+        | .error e => .error e
+        | .ok (e, .rparen :: rest') =>
+          match advance bad rest' with
+          | .error e => .error e
+          | .ok r'' => .ok (e, r'')
+        | .ok (_, r') => .error (.at r'.length)
+    | .ident s :: rest =>
+      match advance bad rest with
+      | .error e => .error e
+      | .ok r => .ok (.ident s, r)
     | _ => .error (.at ts.length)
 end
 
